@@ -172,6 +172,8 @@ def obligations(site):
         ln = ("len", o[0])
         return [("index<len", "Lt", o[1], ln)], [("index!=len", "Ne", o[1], ln)]
     if k in ("slice-index-range", "str-index-range"):
+        if len(o) < 3:
+            return None, []          # the range is a value computed elsewhere (`s[m.range()]`): no general rule
         return [("start<=end", "Le", o[1], o[2]), ("end<=len", "Le", o[2], ("len", o[0]))], []
     if k in ("slice-index-from", "str-index-from"):
         return [("start<=len", "Le", o[1], ("len", o[0]))], []
@@ -203,7 +205,7 @@ def try_prove(site, pf):
         return
     cons, nes, used = pf.holds_at(site.bi, None)
     un = []
-    if k.startswith("str-index"):
+    if k.startswith("str-index") and len(o) >= 2:
         # a str slice also panics when an end is inside a character: guards cannot show that an offset is a
         # character boundary; only 0 and the string's own length are boundaries by construction
         for op in o[1:]:
